@@ -2,7 +2,6 @@
 caller observes into the vocabulary of specs/TokenizerOps.tla.  No verdicts are produced here."""
 from __future__ import annotations
 
-import re
 
 OPT_NAMES = ('sb', 'sp', 'esc', 'star', 'keep', 'colon', 'plus')
 OPT_KW = {
@@ -12,24 +11,6 @@ OPT_KW = {
 TOK_DEFAULTS = {'sb': False, 'sp': True, 'esc': True, 'star': False, 'keep': False, 'colon': False, 'plus': False}
 KV_OPTS = dict(TOK_DEFAULTS, sb=True)
 TRIGGERS = {'sb': '[]', 'sp': '()', 'esc': '\\', 'star': '/', 'keep': '/', 'colon': ':', 'plus': '+'}
-
-_FIXED = {
-    'Reached end of line without closing "]"!': 'flag_eol',
-    'Cannot nest [] brackets!': 'flag_nest',
-    'Unterminated property flag!\n\nLike "name" "value" [flag_without_end': 'flag_eof',
-    'Cannot nest () brackets!': 'paren_nest',
-    'Unterminated parentheses!': 'paren_eof',
-    'No open [] to close with "]"!': 'close_brack',
-    'No open () to close with ")"!': 'close_paren',
-    '/**/-style comments are not allowed!': 'star_off',
-    'Single slash found, instead of two for a comment (//)!': 'slash1',
-    'Single slash found, instead of two for a comment (// or /* */)!': 'slash1s',
-    'No character to escape!': 'esc_eof',
-    'Unterminated string!': 'str_eof',
-}
-_BAD_CHAR = re.compile(r'\AUnexpected character "(.)"!\Z', re.S)
-_EXPECT = re.compile(r'\AExpected Token\.(\w+), but got Token\.(\w+)!\Z')
-_STAR_EOF = re.compile(r'\AUnclosed /\* comment \(starting on line (\d+)\)!\Z')
 
 NO_ERR = {'id': 'none', 'arg': 0, 'l': 0}
 
@@ -64,24 +45,16 @@ def fold_table(text: str) -> list:
 
 
 def classify_error(exc, token_error_type) -> tuple:
-    """-> (err record, exception type name, raw message).  Only the exact type counts."""
-    tname = type(exc).__name__
-    if type(exc) is not token_error_type:
-        return {'id': 'exception', 'arg': 0, 'l': 0}, tname, repr(exc)[:200]
-    mess = exc.mess
+    """-> (err record, exception type name, raw message).
+
+    The record only says WHETHER this is the typed syntax error the tokenizer was told to raise
+    (id "error": an instance of token_error_type, logged under that type's name) or something else
+    (id "exception").  The wording of the message, the file and the line are kept as they are: they
+    are compared between the delivery forms of one input, never with a specification string."""
+    if not isinstance(exc, token_error_type):
+        return {'id': 'exception', 'arg': 0, 'l': 0}, type(exc).__name__, repr(exc)[:200]
     line = exc.line_num if isinstance(exc.line_num, int) else -1
-    if mess in _FIXED:
-        return {'id': _FIXED[mess], 'arg': 0, 'l': line}, tname, mess
-    m = _BAD_CHAR.match(mess)
-    if m:
-        return {'id': 'bad_char', 'arg': ord(m.group(1)), 'l': line}, tname, mess
-    m = _STAR_EOF.match(mess)
-    if m:
-        return {'id': 'star_eof', 'arg': int(m.group(1)), 'l': line}, tname, mess
-    m = _EXPECT.match(mess)
-    if m:
-        return {'id': f'expect/{m.group(1)}/{m.group(2)}', 'arg': 0, 'l': line}, tname, mess
-    return {'id': 'unknown', 'arg': 0, 'l': line}, tname, mess
+    return {'id': 'error', 'arg': 0, 'l': line}, token_error_type.__name__, f'{exc.mess}|file={exc.file!r}'
 
 
 class Watchdog(Exception):
